@@ -186,7 +186,7 @@ _BUILTINS = ("Decimal", "Fraction", "Term", "TableConverter", "Quantity", "len",
              "str", "int", "tuple", "list", "dict", "sorted", "reversed", "isinstance", "sum", "min", "max",
              "abs", "round", "repr", "float", "bool", "getattr", "print", "map", "filter", "any", "all", "set", "iter",
              "List", "Tuple", "Dict", "Optional", "Union", "MutableMapping", "Mapping", "Sequence", "Iterable",
-             "Iterator", "Callable", "Any", "Element")
+             "Iterator", "Callable", "Any", "Element", "suppress")
 
 
 class Catalogue:
@@ -390,6 +390,32 @@ class Catalogue:
             else:
                 self._exec_block(st.orelse, env)
             return
+        if isinstance(st, ast.Match):
+            subject = self._eval(st.subject, env)
+            for case in st.cases:
+                binds = {}
+                if self._match(case.pattern, subject, env, binds):
+                    for k, v in binds.items():
+                        self._assign(ast.Name(id=k, ctx=ast.Store()), v, env)
+                    if case.guard is None or self._truth(self._eval(case.guard, env)):
+                        self._exec_block(case.body, env)
+                        return
+            return
+        if isinstance(st, ast.With):
+            suppressed = []
+            for item in st.items:
+                cm = self._eval(item.context_expr, env)
+                if isinstance(cm, tuple) and cm and cm[0] == "suppress":
+                    suppressed.extend(cm[1])
+                else:
+                    self.err(f"with statement over {cm!r} outside the catalogue language", st)
+            try:
+                self._exec_block(st.body, env)
+            except _PyRaise as ex:
+                if ex.name in suppressed or any(p_ in suppressed for p_ in _EXC_PARENTS.get(ex.name, ("Exception",))):
+                    return
+                raise
+            return
         if isinstance(st, ast.Return):
             raise _Return(self._eval(st.value, env) if st.value is not None else None)
         if isinstance(st, ast.Break):
@@ -539,6 +565,8 @@ class Catalogue:
         if n.id in self.env:
             return self.env[n.id]
         if n.id in _BUILTINS:
+            return CBuiltin(n.id)
+        if n.id in _EXC_PARENTS or n.id in ("Exception", "BaseException"):
             return CBuiltin(n.id)
         if n.id in ("True", "False", "None"):
             return {"True": True, "False": False, "None": None}[n.id]
@@ -851,6 +879,50 @@ class Catalogue:
                     rec(i + 1, e2)
         rec(0, env)
 
+    def _match(self, pat, v, env, binds) -> bool:
+        if isinstance(pat, ast.MatchValue):
+            return self._eval(pat.value, env) == v
+        if isinstance(pat, ast.MatchSingleton):
+            return v is pat.value
+        if isinstance(pat, ast.MatchAs):
+            if pat.pattern is not None and not self._match(pat.pattern, v, env, binds):
+                return False
+            if pat.name is not None:
+                binds[pat.name] = v
+            return True
+        if isinstance(pat, ast.MatchOr):
+            return any(self._match(p, v, env, binds) for p in pat.patterns)
+        if isinstance(pat, ast.MatchSequence):
+            if not isinstance(v, (list, tuple)):
+                return False
+            seq = list(v)
+            stars = [i for i, p in enumerate(pat.patterns) if isinstance(p, ast.MatchStar)]
+            if not stars:
+                return len(seq) == len(pat.patterns) and all(self._match(p, x, env, binds) for p, x in zip(pat.patterns, seq))
+            i = stars[0]
+            na = len(pat.patterns) - i - 1
+            if len(seq) < len(pat.patterns) - 1:
+                return False
+            ok = all(self._match(p, x, env, binds) for p, x in zip(pat.patterns[:i], seq[:i])) and \
+                all(self._match(p, x, env, binds) for p, x in zip(pat.patterns[i + 1:], seq[len(seq) - na:]))
+            if ok and pat.patterns[i].name is not None:
+                binds[pat.patterns[i].name] = list(seq[i:len(seq) - na])
+            return ok
+        if isinstance(pat, ast.MatchClass):
+            cname = src_of(pat.cls).split(".")[-1]
+            types = {"str": str, "int": int, "float": float, "list": list, "tuple": tuple, "dict": dict, "bool": bool}
+            if cname not in types or not isinstance(v, types[cname]) or (cname == "int" and isinstance(v, bool)):
+                return False
+            if len(pat.patterns) == 1:
+                return self._match(pat.patterns[0], v, env, binds)
+            return not pat.patterns and not pat.kwd_patterns
+        self.err("match pattern outside the catalogue language", pat)
+
+    def _e_NamedExpr(self, n, env):
+        v = self._eval(n.value, env)
+        self._assign(n.target, v, env)
+        return v
+
     def _e_Lambda(self, n, env):
         return CFunc(n, env, "<lambda>")
 
@@ -1050,6 +1122,8 @@ class Catalogue:
                 r = list(self._iter(r, node))
                 rows.append([_exact(x) if _is_num(x) else x for x in r])
             return CConverter(rows)
+        if name in ("suppress", "contextlib.suppress"):
+            return ("suppress", [getattr(a, "name", str(a)) for a in args])
         if name == "len":
             if isinstance(args[0], XElem):
                 return len(args[0].el)
